@@ -33,6 +33,9 @@ def windowNames (r : RollerCfg) : List Path := (List.range r.count).map (fun j =
 structure RollObs where
   res : String              -- "ok" | "err" | "PANIC"
   snap : Disk
+  /-- background rotation: no snapshot was taken after this roll (the rotation thread may still be
+  running); the clauses are checked at the next snapshot, which is taken at quiescence -/
+  snapless : Bool := false
 
 structure SpecCfg where
   names : List Path         -- window names, index base first; [] for count = 0 / delete roller
@@ -71,6 +74,7 @@ def checkRolls (c : SpecCfg) (initWin : List Bytes) :
     | some x =>
       let rolled' := x :: rolled
       if o.res ≠ "ok" then some "roll failed"
+      else if o.snapless then checkRolls c initWin prev rolled' rest
       else if o.snap.has c.file then some "rolled file still at its path"
       else if !slotsOk c rolled' o.snap then some "slot b+j does not hold the (j+1)-th most recent file"
       else if !olderOk c initWin rolled'.length o.snap then some "older slot holds foreign content"
